@@ -116,7 +116,7 @@ def check(P, R):
     R.rule('C02.b', 'first registered candidate wins', floor=3)
     R.rule('C02.c', 'method names upper-cased on every registration path and on the request side', floor=4)
     R.rule('C02.d', '404 / 405 split', floor=4)
-    R.rule('C02.e', 'Allow computed from the method table at request time', floor=2)
+    R.rule('C02.e', 'Allow computed from the method table at request time', floor=1)
 
     # ---- a
     f = P.func(f'{OM}:Ombott.to_route')
